@@ -233,8 +233,8 @@ def gen_session(rng: random.Random, spec, *, p_invalid=0.0, p_query=0.0, p_reset
                     allowed = sorted(rng.sample(pool, rng.randint(1, min(3, len(pool)))))
                     events.append([6, k, [allowed]])
                     if not any(kinds[i] == k and i in allowed for i in subs):
-                        kinds.append(k)
-                        subs.append(len(kinds) - 1)
+                        # no match: the library constructs a new one (the singleton guard may refuse)
+                        construct(k)
                 else:
                     events.append([6, k, []])
                     if not any(kinds[i] == k for i in subs):
